@@ -194,6 +194,26 @@ fn corrupt_case(rng: &mut Rng, db: &DbSpec, big: usize) -> Case {
     Case { big, chunk, file, fault: Fault::Corrupt(j, v) }
 }
 
+/// whole-offset overwrites with boundary values at the given entry positions (1-based):
+/// 0, 1, the type's maximum and just below it (an entry size away), the length of the file the
+/// offset points into and its neighbourhood
+fn boundary_overwrites(db: &DbSpec, big: usize, chunk: usize, primary: bool, positions: &[usize], cs: &mut Vec<Case>) {
+    let (file, target, max, unit) = if primary {
+        ("primary", file_len(db, chunk, "secondary"), u32::MAX as u64, ENTRY as u64)
+    } else {
+        ("secondary", file_len(db, chunk, "chunk"), u64::MAX, 1u64)
+    };
+    let mut vals = vec![0, 1, max, max - 1, max - unit + 1, max - unit, max - unit - 1, target.saturating_sub(unit), target.saturating_sub(1), target, target + 1, target + unit];
+    if !primary {
+        vals.extend([1u64 << 32, 1u64 << 63, (1u64 << 63) - 1]);
+    }
+    for &j in positions {
+        for &v in &vals {
+            cs.push(Case { big, chunk, file, fault: Fault::Corrupt(j, v) });
+        }
+    }
+}
+
 fn cases(seed: u64, thorough: bool, dbs: &[DbSpec]) -> Vec<Case> {
     let mut rng = Rng::new(seed ^ 0xC43);
     let mut cs = Vec::new();
@@ -226,6 +246,13 @@ fn cases(seed: u64, thorough: bool, dbs: &[DbSpec]) -> Vec<Case> {
     for _ in 0..(if thorough { 4000 } else { 300 }) {
         cs.push(corrupt_case(&mut rng, small, 0));
     }
+    // every entry position of both index files x boundary values
+    for chunk in 0..small.imm() {
+        let np = ((file_len(small, chunk, "primary") - 1) / 4) as usize;
+        let ns = (file_len(small, chunk, "secondary") / ENTRY as u64) as usize;
+        boundary_overwrites(small, 0, chunk, true, &(1..=np).collect::<Vec<_>>(), &mut cs);
+        boundary_overwrites(small, 0, chunk, false, &(1..=ns).collect::<Vec<_>>(), &mut cs);
+    }
     // ---- the test database
     for (bi, db) in dbs.iter().enumerate().skip(1) {
         let first_big = bi == 1;
@@ -256,6 +283,30 @@ fn cases(seed: u64, thorough: bool, dbs: &[DbSpec]) -> Vec<Case> {
         }
         for _ in 0..(if thorough { 3000 } else { 100 }) {
             cs.push(corrupt_case(&mut rng, db, bi));
+        }
+        // boundary overwrites at sampled positions (first / last entries and seeded ones; occupied
+        // primary slots are sparse, so half of the primary positions are taken next to one)
+        for chunk in 0..db.imm() {
+            let np = ((file_len(db, chunk, "primary") - 1) / 4) as usize;
+            let ns = (file_len(db, chunk, "secondary") / ENTRY as u64) as usize;
+            let k = if thorough { 150 } else { 6 };
+            let pdata = read(&db.src.join(format!("{}.primary", db.names[chunk])));
+            let at = |i: usize| be_u32(&pdata[1 + 4 * (i - 1)..]);
+            let mut pp = vec![1, 2, np - 1, np];
+            for _ in 0..k {
+                pp.push(1 + rng.below(np as u64) as usize);
+                for _ in 0..400 {
+                    let c = 1 + rng.below(np as u64 - 1) as usize;
+                    if at(c) != at(c + 1) {
+                        pp.push(c + rng.below(2) as usize);
+                        break;
+                    }
+                }
+            }
+            let mut sp = vec![1, 2, ns - 1, ns];
+            sp.extend((0..k).map(|_| 1 + rng.below(ns as u64) as usize));
+            boundary_overwrites(db, bi, chunk, true, &pp, &mut cs);
+            boundary_overwrites(db, bi, chunk, false, &sp, &mut cs);
         }
     }
     cs
